@@ -4,6 +4,7 @@ import (
 	"encoding/json"
 	"fmt"
 	"sync"
+	"time"
 
 	"github.com/bfenetworks/bfe/bfe_balance/backend"
 	"github.com/bfenetworks/bfe/bfe_balance/bal_gslb"
@@ -32,10 +33,11 @@ import (
 // (restart flag pending or InSlowStart in the snapshot taken before the
 // call), nothing is asserted (counted as ss_error_while_all_eligible_ramping;
 // the effective weight starts at final*elapsed/period = 0).
-// No wall clock: no sleeps, no verdict depends on how far a ramp got.
+// No wall clock in the oracle: no verdict depends on how far a ramp got (a few
+// histories sleep 12-25 ms so that ramping backends get a positive weight).
 
 type c03SSOp struct {
-	Kind  string  `json:"kind"` // reload | down | up | conns | balance
+	Kind  string  `json:"kind"` // reload | down | up | conns | balance | sleep (N ms; lets ramps progress, no verdict depends on it)
 	Table []bspec `json:"table,omitempty"`
 	Name  string  `json:"name,omitempty"`
 	N     int     `json:"n,omitempty"` // conns: connections to hold; balance: number of decisions
@@ -79,7 +81,9 @@ type c03SSB struct {
 // staleShape: the backend's slow-start target was fixed when it was created,
 // its configured weight was changed by a reload afterwards, and it went
 // through a slow start.
-func (b *c03SSB) staleShape() bool { return b.reloaded && b.created != b.cfg && (b.ramped || b.pending) }
+func (b *c03SSB) staleShape() bool {
+	return b.reloaded && b.created != b.cfg && (b.ramped || b.pending)
+}
 
 type c03SSDriver struct {
 	c    *c03SSCase
@@ -211,6 +215,9 @@ func c03SSRun(r *vkit.Run, c *c03SSCase, st *c03SSStat) {
 					m.avail, m.pending, m.origin = true, true, "recovered"
 					first = "recovery"
 				}
+			case "sleep":
+				time.Sleep(time.Duration(op.N) * time.Millisecond)
+				r.Count("ss_sleep_ops", 1)
 			case "conns":
 				if b, ok := d.objs[op.Name]; ok {
 					for b.ConnNum() < op.N {
@@ -347,7 +354,7 @@ func c03SSStep(r *vkit.Run, c *c03SSCase, d *c03SSDriver, step, k int, first, an
 			return viol("slowstart:unavailable-backend:"+an, "returned backend "+b.Name+" is marked unavailable")
 		}
 		if m.cfg <= 0 {
-			if m.staleShape() {
+			if m.staleShape() && an != "WrrSimple" {
 				return viol("slowstart:stale-target:zero-weight-backend-returned",
 					fmt.Sprintf("returned backend %s whose configured weight is %d (created with weight %d, weight changed by a reload, then slow start)", b.Name, m.cfg, m.created))
 			}
@@ -508,6 +515,11 @@ func c03SSGen(r *vkit.Run, i int) *c03SSCase {
 		}
 		// the FIRST decision after the event is judged: no warm-up in between
 		op(c03SSOp{Kind: "balance", N: g.Range(1, 3)})
+		if c.SST == 1 && g.Chance(1, 6) {
+			// let the ramps get somewhere (slow_start_time 1 s: weight w reaches 1/100 of w after 10/w ms)
+			op(c03SSOp{Kind: "sleep", N: g.Range(12, 25)})
+			op(c03SSOp{Kind: "balance", N: g.Range(1, 4)})
+		}
 	}
 	return c
 }
